@@ -11,7 +11,7 @@ import Driver.Util
   request words are the raw uint32 values, decoded with the generated constants (Gen.Consts).
 
   pool-consumer accounting (API histories; after every call the num_scheds of every live pool and the `used` field
-  of every live scheduler are dumped)
+  and request word of every live scheduler are dumped: ` | pools P=num_scheds.. | scheds K:used:request..`)
     init | pool P auto acc kind | poolfree P | sched K predef auto slots.. | schedu K auto slots.. | schedfree K
     xs X K | xs X nK nP | xsb X K predef slots.. | join X | revive X | xfree X
     setmain X K | setmain X nK nP | setmainb X K predef slots..
@@ -83,7 +83,7 @@ def insSorted (k : Nat) (v : String) : List (Nat × String) → List (Nat × Str
 
 def dump (s : Acc) : String :=
   let ps := s.pools.foldl (fun acc q => insSorted q.1 s!"{q.1}={s.ns q.1}" acc) []
-  let ks := s.scheds.foldl (fun acc r => insSorted r.id s!"{r.id}:{usedName r.used}" acc) []
+  let ks := s.scheds.foldl (fun acc r => insSorted r.id s!"{r.id}:{usedName r.used}:{encSched (s.req r.id)}" acc) []
   " | pools" ++ String.join (ps.map (fun x => " " ++ x.2)) ++ " | scheds" ++ String.join (ks.map (fun x => " " ++ x.2))
 
 def runEvs (s : Acc) : List AEv → Option Acc
@@ -154,10 +154,8 @@ def step (s : Acc) (ws : List String) : Acc × String :=
     acct s (do
       let x ← x.toNat?; let k ← k.toNat?; let (ps, news) ← parseSlots slots
       if !knownPredef predef then none else pure (newPools news ++ [.schedCreate k ps true, .streamCreate x k]))
-  | ["join", x] | ["revive", x] =>
-    match x.toNat? with
-    | some x => if (s.main? x).isSome then (s, "ok" ++ dump s) else (s, "err" ++ dump s)
-    | none => (s, "bad-op")
+  | ["join", x] => acct s (do let x ← x.toNat?; pure [.join x])
+  | ["revive", x] => acct s (do let x ← x.toNat?; pure [.revive x])
   | ["xfree", x] => acct s (do let x ← x.toNat?; pure [.streamFree x])
   | ["setmain", x, k] => acct s (do let x ← x.toNat?; let k ← k.toNat?; pure [.replace x k])
   | ["setmain", x, nk, np] =>
